@@ -215,6 +215,8 @@ static int URI_FUNC(RemoveBaseUriImpl)(URI_TYPE(Uri) * dest,
 							if (!URI_FUNC(FixAmbiguity)(dest, memory)) {
 								return URI_ERROR_MALLOC;
 							}
+							/* "/" is represented without any path segment */
+							URI_FUNC(FixEmptyTrailSegment)(dest, memory);
 	/* [18/50]	      else */
 						} else {
 							const URI_TYPE(PathSegment) * sourceSeg = absSource->pathHead;
